@@ -1,0 +1,37 @@
+//go:build verif
+
+package entry
+
+import (
+	bn256 "github.com/ethereum/go-ethereum/crypto/bn256/cloudflare"
+	"github.com/ipfs/go-log/v2"
+	"github.com/keep-network/keep-core/pkg/beacon/dkg"
+	"github.com/keep-network/keep-core/pkg/protocol/group"
+)
+
+// Verification hook (build tag verif): re-exports existing identifiers only.
+
+// VerifExtractAndValidateShare re-exports extractAndValidateShare for a message
+// built from the given sender and share bytes.
+func VerifExtractAndValidateShare(
+	senderID group.MemberIndex,
+	shareBytes []byte,
+	groupPublicKeyShares map[group.MemberIndex]*bn256.G2,
+	previousEntry *bn256.G1,
+) (*bn256.G1, error) {
+	return extractAndValidateShare(
+		&SignatureShareMessage{senderID: senderID, shareBytes: shareBytes},
+		groupPublicKeyShares,
+		previousEntry,
+	)
+}
+
+// VerifCompleteSignature re-exports completeSignature.
+func VerifCompleteSignature(
+	logger log.StandardLogger,
+	signer *dkg.ThresholdSigner,
+	shares map[group.MemberIndex]*bn256.G1,
+	honestThreshold int,
+) (*bn256.G1, error) {
+	return completeSignature(logger, signer, shares, honestThreshold)
+}
